@@ -360,9 +360,11 @@ def run_case(H, ex, case):
         # allocation requests must be bounded by the input size
         for callee, term, site in ex.alloc_requests:
             w = term.t.size()
-            if ex.sat(z3.UGT(term.t, z3.BitVecVal(max(64, 16 * n), w))):
-                ex.assume(z3.UGT(term.t, z3.BitVecVal(max(64, 16 * n), w)))
-                raise Violation('C13.alloc[attr_reader_alloc]: %s is asked for a buffer whose size comes straight from the input (can exceed 16x the %d input bytes) at %s' % (callee.split('::<')[0], n, site))
+            if ex.sat(z3.UGT(term.t, z3.BitVecVal(max(1 << 16, 16 * n), w))):
+                ex.assume(z3.UGT(term.t, z3.BitVecVal(max(1 << 16, 16 * n), w)))
+                if w > 30 and ex.sat(z3.UGE(term.t, z3.BitVecVal(1 << 30, w))):
+                    ex.assume(z3.UGE(term.t, z3.BitVecVal(1 << 30, w)))        # a witness that shows natively (address-space limit)
+                raise Violation('C13.alloc[attr_reader_alloc]: %s is asked for a buffer whose size comes straight from the input (can exceed 64 KiB and 16x the %d input bytes) at %s' % (callee.split('::<')[0], n, site))
         return 'ok' if res.variant == 'Ok' else 'err'
     if what == 'partition':
         # the decoding result must not depend on how the reader delivers the bytes
